@@ -240,7 +240,7 @@ namespace Pistache::Http::Mime
                 if (match_literal('=', cursor))
                 {
                     double val;
-                    if (!match_double(&val, cursor))
+                    if (!match_double(&val, cursor) || !(val >= 0.0 && val <= 1.0))
                         raise("Invalid quality factor");
                     q_ = Q::fromFloat(val);
                 }
